@@ -16,13 +16,13 @@ RULE = ("Histories of 3-40 add_resource / add_window(named) / add_window(anonymo
         "distinct. Non-trivial = a refused and an accepted name sharing their first part, and an "
         "anonymous window absorbing >= 2 names. Distinct = canonical JSON.")
 BUDGET = {"quick": (16, 1500), "thorough": (16, 40000)}
-ESSENTIAL = ["refused_for_non_name_reason", "refused_conflict", "accepted_shared_first_part", "anon_absorbs>=2", "anon_conflict_refused",
+ESSENTIAL = ["identical_twin_window_refused", "int_part_above_256", "refused_for_non_name_reason", "refused_conflict", "accepted_shared_first_part", "anon_absorbs>=2", "anon_conflict_refused",
              "anon_conflict_not_last", "str_vs_int", "invalid_name_refused", "prefix_longer_new", "prefix_shorter_new", "depth3"]
 ASSUMPTIONS = [
     "refusals for reasons other than names are excluded by construction (ample address space, implicit addresses) or tracked by the model (frozen parent, window already added)",
 ]
 
-PARTS = ["a", "b", "ab", "0", 0, 1]
+PARTS = ["a", "b", "ab", "0", 0, 1, 300, 300, "300", 1000]
 
 
 class Res(wiring.Component):
@@ -53,6 +53,8 @@ def _spec(draw, tier):
         # refused for a reason other than the name (address out of bounds): must reserve nothing
         (1, st.tuples(st.just("res_oob"), mi, _name()).map(list)),
         (1, st.tuples(st.just("win_oob"), mi, mi, st.one_of(st.none(), _name())).map(list)),
+        # two fresh maps holding the same n names, both added anonymously, one right after the other
+        (1, st.tuples(st.just("twins"), mi, st.integers(2, 12), st.sampled_from(["t", "u", "a"])).map(list)),
     )
     lo = draw(st.integers(3, 30))
     return {"nmaps": nmaps, "ops": draw(st.lists(op, min_size=lo, max_size=lo + 10))}
@@ -107,6 +109,33 @@ def check(spec, stats):
             else:
                 raise Violation("C18/invalid-name-accepted", f"{where}: name {BAD[op[2]]!r} accepted")
             continue
+        if op[0] == "twins":
+            if frozen[i] or m.addr_width < 16:
+                continue        # small maps could run out of address space (never the reason for a refusal here)
+            names = [(op[3], kk) for kk in range(op[2])]
+            for copy in (0, 1):
+                child = MemoryMap(addr_width=4, data_width=8)
+                for nm in names:
+                    child.add_resource(Res(), name=tuple(nm), size=1)
+                conflicts = [(a, b) for a in names for b in visible[i] if conflict(a, b)]
+                before = [_snapshot(x) for x in maps]
+                try:
+                    m.add_window(child)
+                    ok = True
+                except Exception as e:
+                    ok = False
+                    if [_snapshot(x) for x in maps] != before:
+                        raise Violation("C18/refusal-changed-state", f"{where}: refused twin changed state")
+                if ok and conflicts:
+                    raise Violation("C18/conflict-accepted", f"{where}: anonymous window #{copy + 1} with names {names[:3]}... "
+                                    f"accepted although they conflict with visible names")
+                if not ok and not conflicts:
+                    raise Violation("C18/legal-name-refused", f"{where}: anonymous window #{copy + 1} refused without a conflict")
+                if ok:
+                    visible[i].extend(tuple(nm) for nm in names)
+                elif copy == 1 and op[2] >= 9:
+                    stats.label("identical_twin_window_refused")
+            continue
         if op[0] in ("res_oob", "win_oob"):
             oob = 1 << m.addr_width
             try:
@@ -142,6 +171,8 @@ def check(spec, stats):
             else:
                 call = lambda: m.add_window(maps[j], name=name)
         conflicts = [(a, b) for a in new for b in visible[i] if conflict(a, b)]
+        if any(isinstance(x, int) and x > 256 for a, b in conflicts for x in a):
+            stats.label("int_part_above_256")
         try:
             call()
             ok = True
